@@ -81,22 +81,22 @@ func (t *sleepTransaction) Sleep() error {
 	switch state {
 	case util.StateActive:
 		duration := uint16(t.sleepDuration / time.Second)
-		// The lock is held over send() so that the reply cannot be
-		// handled before the retry timer is set up.
+		// The retry timer is set up before the packet is sent so that
+		// the reply cannot be handled before the timer exists.
+		// t.mu is never held while calling client.send() or
+		// client.setState(): both can block.
 		t.mu.Lock()
-		t.disconnect = pkts1.NewDisconnect(duration)
+		disconnect := pkts1.NewDisconnect(duration)
+		t.disconnect = disconnect
 		t.state = awaitingDisconnect
-		if err := t.client.send(t.disconnect); err != nil {
-			t.mu.Unlock()
+		t.timer = time.AfterFunc(t.retryDelay, t.resendDisconnect)
+		t.mu.Unlock()
+		if err := t.client.send(disconnect); err != nil {
 			t.Fail(err)
 			return err
 		}
-		t.timer = time.AfterFunc(t.retryDelay, t.resendDisconnect)
-		t.mu.Unlock()
 	case util.StateAwake:
-		t.mu.Lock()
 		t.startSleep()
-		t.mu.Unlock()
 	default:
 		return fmt.Errorf("cannot call Sleep() in %q state", state)
 	}
@@ -119,34 +119,36 @@ func (t *sleepTransaction) resendDisconnect() {
 		return
 	}
 	t.log.Debug("DISCONNECT resend no. %d", t.disconnectResendNum)
-	if err := t.client.send(t.disconnect); err != nil {
-		t.mu.Unlock()
-		t.Fail(err)
-		return
-	}
+	disconnect := t.disconnect
 	t.timer = time.AfterFunc(t.retryDelay, t.resendDisconnect)
 	t.mu.Unlock()
+	if err := t.client.send(disconnect); err != nil {
+		t.Fail(err)
+	}
 }
 
 func (t *sleepTransaction) Disconnect(disconnect *pkts1.Disconnect) {
 	t.mu.Lock()
-	defer t.mu.Unlock()
 	if t.isDone() || t.state != awaitingDisconnect || t.disconnect == nil {
-		t.log.Debug("Unexpected packet in %d: %v", t.state, disconnect)
+		state := t.state
+		t.mu.Unlock()
+		t.log.Debug("Unexpected packet in %d: %v", state, disconnect)
 		return
 	}
 	if t.timer != nil {
 		t.timer.Stop()
 	}
 	t.disconnect = nil
+	t.mu.Unlock()
 	t.startSleep()
 }
 
 func (t *sleepTransaction) Pingresp(pingresp *pkts1.Pingresp) {
 	t.mu.Lock()
 	if t.state != awaitingPingresp {
+		state := t.state
 		t.mu.Unlock()
-		t.log.Debug("Unexpected packet in %d: %v", t.state, pingresp)
+		t.log.Debug("Unexpected packet in %d: %v", state, pingresp)
 		return
 	}
 	t.mu.Unlock()
@@ -161,11 +163,21 @@ func (t *sleepTransaction) stopTimer() {
 	}
 }
 
-// startSleep must be called with t.mu held.
+// setTimer sets a new timer unless the transaction has finished in the
+// meantime (the completion callback has already stopped the timer).
+func (t *sleepTransaction) setTimer(d time.Duration, f func()) {
+	t.mu.Lock()
+	defer t.mu.Unlock()
+	if t.isDone() {
+		return
+	}
+	t.timer = time.AfterFunc(d, f)
+}
+
 func (t *sleepTransaction) startSleep() {
 	t.log.Debug("Sleeping for %v...", t.sleepDuration)
 	t.client.setState(util.StateAsleep)
-	t.timer = time.AfterFunc(t.sleepDuration, t.wakeup)
+	t.setTimer(t.sleepDuration, t.wakeup)
 }
 
 func (t *sleepTransaction) wakeup() {
@@ -174,17 +186,16 @@ func (t *sleepTransaction) wakeup() {
 		t.mu.Unlock()
 		return
 	}
+	t.state = awaitingPingresp
+	t.mu.Unlock()
 	t.client.setState(util.StateAwake)
 	t.log.Debug("Awake")
-	t.state = awaitingPingresp
 	ping := pkts1.NewPingreq([]byte(t.client.cfg.ClientID))
 	if err := t.client.send(ping); err != nil {
-		t.mu.Unlock()
 		t.Fail(err)
 		return
 	}
-	t.timer = time.AfterFunc(maxPingrespWait, func() {
+	t.setTimer(maxPingrespWait, func() {
 		t.Fail(fmt.Errorf("did not receive PINGRESP in %v", maxPingrespWait))
 	})
-	t.mu.Unlock()
 }
